@@ -80,6 +80,14 @@ def judge_obs(o, node, bnode, env, k, info, res):
     L = max(L, float(np.abs(X).max()) if N else 1.0)
     tol = TOL * L
     ok, amb = tnode.member(X, envrows, tol, L)
+    abut = any("abut" in r for r in info.get("relations", []))
+    mech["abut"] = abut
+    if abut and call["target"] == "boundary" and amb.any():
+        # operands that share an edge exactly (by construction): rows on the level set that are two-sided at no scale
+        # lie on the interior seam, they are not ambiguous
+        res["viol"].append(viol("seam_point", "%d of %d boundary samples of %s lie on the interior seam of abutting operands "
+                                "(call %s), e.g. x=%s" % (int(amb.sum()), len(X), info["desc"], call, np.round(X[np.where(amb)[0][0]], 6).tolist()),
+                                frac=round(float(amb.mean()), 3), **mech))
     bad = ~ok & ~amb
     res["judged"] += int((~amb).sum())
     res["counters"]["rows_judged"] = res["counters"].get("rows_judged", 0) + int((~amb).sum())
